@@ -1,6 +1,13 @@
 import NavisModel.Proofs.RerootLemmas
 import NavisModel.Proofs.RerootEdgesLemmas
 import NavisModel.Proofs.ConnSubLemmas
+import NavisModel.Proofs.TreeEditLemmas
+import NavisModel.Proofs.CutFrontEndLemmas
+import NavisModel.Proofs.CutFragmentsLemmas
+import NavisModel.Gen.TreeEdit
+import NavisModel.Proofs.RerootGraphLemmas
+import NavisModel.Proofs.RerootTreesLemmas
+import NavisModel.Proofs.TreeCheckLemmas
 /-!
 # C10 — reroot, cut and subset change the tree exactly as specified
 
@@ -9,7 +16,7 @@ Property theorems only; helper lemmas are in `Proofs/ForestLemmas.lean`, `Proofs
 row order) that is a well-formed forest `WF t`, every target node, every keep-predicate.
 -/
 namespace Navis.Props.C10
-open Navis.Forest
+open Navis.Forest Navis.TreeEdit
 
 /-- Subsetting returns precisely the requested nodes that are present (ids, in table order). -/
 theorem subset_exact_ids (t : Table) (keep : Int → Bool) : ids (subset t keep) = (ids t).filter keep :=
@@ -173,6 +180,255 @@ the included set, so `subset_neuron(prevent_fragments=True)` *is* `subset` on th
 theorem prevent_fragments_is_subset (t : Table) (hw : WF t) (ss : List Int) :
     subsetPF t ss = subset t fun i => (connectedSubgraph t ss).1.contains i := subsetPF_eq hw ss
 
+
+/-! ## Second pass
+
+### reroot: cable length, weights, sequences of targets, the loop as the source spells it -/
+
+/-- Rerooting (one target or a sequence) does not change the cable length, for every symmetric edge length
+(in particular the Euclidean one navis uses). -/
+theorem reroot_cable (t : Table) (hw : WF t) (len : Int → Int → Nat) (hsym : ∀ a b, len a b = len b a) (rs : List Int) :
+    cable (rerootMany t rs) len = cable t len := cable_rerootMany hw len hsym rs
+
+/-- Rerooting keeps the undirected edges *with their weights*: the weighted undirected edge list of the graph of
+the rerooted table is a permutation of the original one. -/
+theorem reroot_weighted_uedges (t : Table) (hw : WF t) (len : Int → Int → Nat) (hsym : ∀ a b, len a b = len b a)
+    (rs : List Int) : (wuedges (graphOf (rerootMany t rs) len)).Perm (wuedges (graphOf t len)) :=
+  wuedges_reroot_perm hw len hsym rs
+
+/-- A sequence of targets: node set and coordinates stay row by row, the undirected edges are permuted, and the
+LAST target ends up as a root. -/
+theorem reroot_sequence (t : Table) (hw : WF t) (rs : List Int) :
+    ids (rerootMany t rs) = ids t ∧
+    (rerootMany t rs).map (fun n => (n.id, n.x, n.y, n.z)) = t.map (fun n => (n.id, n.x, n.y, n.z)) ∧
+    (uedges (rerootMany t rs)).Perm (uedges t) :=
+  ⟨ids_rerootMany t rs, coords_rerootMany t rs, uedges_rerootMany_perm hw rs⟩
+
+theorem reroot_sequence_last_is_root (t : Table) (rs : List Int) (r : Int) (hr : r ∈ ids t) :
+    ∃ n ∈ rerootMany t (rs ++ [r]), n.id = r ∧ n.parent < 0 := rerootMany_last_root t rs r hr
+
+/-- **The loop of `reroot_skeleton` as the source spells it** — `x.nodes.loc[path[a:b], 'parent_id'] = path[c:d]`,
+`x.nodes.loc[new_root, 'parent_id'] = p`, the skip test — with the slices, the value and the kind of skip test
+*read from the current source* (`Gen.TreeEdit.rerootSpec`) is the model's `rerootMany`, whatever snapshot of the
+roots a stale skip test would have used. -/
+theorem reroot_loop_as_written (t : Table) (hw : WF t) (snapshot rs : List Int) :
+    rerootLoopAW Gen.TreeEdit.rerootSpec snapshot t rs = rerootMany t rs := by
+  have h : Gen.TreeEdit.rerootSpec = refRerootSpec := by decide
+  rw [h]
+  exact rerootLoopAW_ref snapshot hw
+
+/-- `TreeNeuron.reroot` and the `root` setter hand their working copy / `self` to that loop with `inplace=True`. -/
+theorem reroot_entry_points : Gen.TreeEdit.rerootMethodForwards = true ∧ Gen.TreeEdit.rootSetterReroots = true := by decide
+
+/-- Rerooting a neuron (ids or tags as targets) touches nothing but the node table. -/
+theorem reroot_keeps_attachments (x y : Neuron) (targets : List Where) (h : rerootNeuron x targets = .ok y) :
+    y.conns = x.conns ∧ y.tags = x.tags ∧ y.soma = x.soma := by
+  unfold rerootNeuron at h
+  cases hr : resolveRoots x targets with
+  | error e => rw [hr] at h; simp at h
+  | ok rs =>
+    rw [hr] at h
+    simp only at h
+    split at h
+    · simp only [Except.ok.injEq] at h
+      subst h
+      exact ⟨rfl, rfl, rfl⟩
+    · simp at h
+
+
+/-- **The graph navis edits in place is the graph of the new table.**  The igraph branch of `reroot_skeleton` reads
+the weights along the path, appends the inverted edges with those weights and deletes the path edges; navis keeps
+that graph instead of recomputing it.  Up to the order of the edge list it *is* the weighted graph of the rerooted
+node table — for every forest, every non-root target, every symmetric edge length. -/
+theorem reroot_graph_in_place (t : Table) (hw : WF t) (len : Int → Int → Nat) (hsym : ∀ a b, len a b = len b a)
+    (r : Int) (nr : Node) (hf : find? t r = some nr) (hp : ¬ nr.parent < 0) :
+    (rerootGraphIg (graphOf t len) (rootPath t r)).Perm (graphOf (reroot t r) len) :=
+  rerootGraphIg_perm hw len hsym hf hp
+
+/-- **Other fragments are untouched by a whole sequence of reroots**: a row whose tree contains none of the targets
+is in the result, unchanged. -/
+theorem reroot_sequence_other_trees_untouched (t : Table) (hw : WF t) (rs : List Int) (n : Node) (hn : n ∈ t)
+    (hother : ∀ r ∈ rs, rootOf t n.id ≠ rootOf t r) : n ∈ rerootMany t rs := rerootMany_other_trees hw n hn hother
+
+/-- After rerooting to a non-root node `r`, every node of `r`'s tree has root `r`, and the trees are the same sets of
+nodes as before. -/
+theorem reroot_tree_membership (t : Table) (hw : WF t) (r : Int) (nr : Node) (hf : find? t r = some nr) (hp : ¬ nr.parent < 0)
+    (i : Int) (hi : i ∈ ids t) :
+    (rootOf t i = rootOf t r → rootOf (reroot t r) i = some r) ∧
+    (rootOf t i ≠ rootOf t r → rootOf (reroot t r) i = rootOf t i) :=
+  ⟨fun h => rootOf_reroot_same hw hf hp hi h, fun h => rootOf_reroot_other hw r hi h⟩
+
+/-! ### checkers evaluated by the driver on navis' own output -/
+
+/-- `rerootOKB` is sound (acceptance gives every clause: ids and coordinates row by row, a well-formed correctly
+labelled forest, the same undirected edges, the target is a root, rows off the path untouched) … -/
+theorem reroot_checker_sound (t t' : Table) (r : Int) (h : rerootOKB t t' r = true) :
+    ids t' = ids t ∧ coordRows t' = coordRows t ∧ WF t' ∧ labelsOKB t' = true ∧ (uedges t').Perm (uedges t) ∧
+    (∃ n ∈ t', n.id = r ∧ n.parent < 0) ∧ (∀ n ∈ t, n.id ∉ rootPath t r → n ∈ t') := rerootOKB_sound h
+
+/-- … and complete (the model's output is accepted, so a correct implementation is never rejected). -/
+theorem reroot_checker_complete (t : Table) (hw : WF t) (hl : labelsOKB t = true) (r : Int) (hr : r ∈ ids t) :
+    rerootOKB t (reroot t r) r = true := rerootOKB_complete hw hl hr
+
+/-- `fragsOKB` accepts exactly the permutations of the fragments of `cutMany`. -/
+theorem cuts_checker_iff (t : Table) (hw : WF t) (ρ : Int) (hroot : roots t = [ρ]) (cs : List Int) (hne : cs ≠ [])
+    (hnd : cs.Nodup) (hcs : ∀ c ∈ cs, c ∈ ids t ∧ c ≠ ρ) (frags : List Table) :
+    fragsOKB t ρ cs frags = true ↔ frags.Perm (cutMany t cs) := fragsOKB_iff hw hroot hne hnd hcs frags
+
+theorem subset_checker_sound (t t' : Table) (keep : Int → Bool) (h : subsetOKB t t' keep = true) :
+    ids t' = (ids t).filter keep ∧ labelsOKB t' = true ∧
+    ∀ m ∈ t', ∃ n, find? t m.id = some n ∧ m.x = n.x ∧ m.y = n.y ∧ m.z = n.z ∧
+      m.parent = (if n.parent ∈ (ids t).filter keep then n.parent else -1) := subsetOKB_sound h
+
+theorem subset_checker_complete (t : Table) (hw : WF t) (keep : Int → Bool) : subsetOKB t (subset t keep) keep = true :=
+  subsetOKB_complete hw keep
+
+/-- **Exactness**: on a well-formed input the subset checker accepts the model's output and nothing else — so the
+clauses it tests (requested ids in table order, coordinates, parent kept iff it survives, labels) pin the result down
+completely. -/
+theorem subset_checker_exact (t : Table) (hw : WF t) (keep : Int → Bool) (t' : Table) :
+    subsetOKB t t' keep = true ↔ t' = subset t keep := subsetOKB_iff hw keep t'
+
+/-! ### several cuts -/
+
+/-- **The fragments of several cuts**: cutting a single tree with root `ρ` at the distinct non-root nodes `cs`
+(at least one) yields one fragment per top `τ ∈ ρ :: cs`: the nodes below-or-at `τ` for which every cut node met on
+the way up to `τ` is `τ` itself or the starting node (a cut node roots its own fragment and is a leaf of the one
+above).  For `cs = []` the statement would be false only because `cutMany t [] = [t]` is not re-classified. -/
+theorem cuts_fragments (t : Table) (hw : WF t) (ρ : Int) (hroot : roots t = [ρ]) (cs : List Int) (hne : cs ≠ [])
+    (hnd : cs.Nodup) (hcs : ∀ c ∈ cs, c ∈ ids t ∧ c ≠ ρ) :
+    (cutMany t cs).Perm ((ρ :: cs).map fun τ => subset t (fragKeep t cs τ)) :=
+  cutMany_fragments_partial hw hroot cs hnd hcs (Or.inl hne)
+
+/-- **Several cuts give the same fragments in whatever order they are made** (in particular: cutting at `a` and
+then, in the piece that contains it, at `b` gives the fragments of cutting at `b` first). -/
+theorem cuts_commute (t : Table) (hw : WF t) (ρ : Int) (hroot : roots t = [ρ]) (cs cs' : List Int)
+    (hnd : cs.Nodup) (hcs : ∀ c ∈ cs, c ∈ ids t ∧ c ≠ ρ) (hp : cs'.Perm cs) :
+    (cutMany t cs').Perm (cutMany t cs) := cutMany_perm hw hroot hnd hcs hp
+
+/-- Several cuts are *by definition of the loop* successive single cuts, each made in the fragment that contains
+the node: the fragment list after `cs ++ [c]` is one more `cutStep`. -/
+theorem cuts_are_successive_single_cuts (t : Table) (cs : List Int) (c : Int) :
+    cutMany t (cs ++ [c]) = cutStep (cutMany t cs) c := by
+  rw [cutMany_eq_foldl, cutMany_eq_foldl, List.foldl_append]
+  rfl
+
+/-- For every list of cut nodes (any forest, duplicates and uncuttable nodes included): every fragment is a
+well-formed, correctly labelled forest; the fragments together contain every original edge exactly once; and
+every node is in some fragment. -/
+theorem cuts_edges_partition (t : Table) (hw : WF t) (hl : labelsOKB t = true) (cs : List Int) :
+    (∀ f ∈ cutMany t cs, WF f ∧ labelsOKB f = true) ∧
+    ((cutMany t cs).flatMap edges).Perm (edges t) ∧
+    (∀ i, i ∈ ids t ↔ ∃ f ∈ cutMany t cs, i ∈ ids f) :=
+  let h := fragsOK_cutMany hw hl cs
+  ⟨h.wf, h.edges, h.nodes⟩
+
+/-- `cut_skeleton` with a list of ids (front end as written: single-tree guard, presence / root checks,
+order-preserving de-duplication, fragment list surgery) returns, on the node tables, exactly `cutMany`. -/
+theorem cut_skeleton_ids (x : Neuron) (cs : List Int) (out : List Neuron)
+    (h : cutSkeleton x (cs.map Where.id) .both = .ok out) : out.map (·.nodes) = cutMany x.nodes (dedup cs) :=
+  cutSkeleton_ids_nodes h
+
+/-- Every fragment `cut_skeleton` returns (any `ret=`, ids and tags) is the input itself or carries exactly the
+connectors, the tags and the soma of the input that sit on its nodes. -/
+theorem cut_fragments_attachments (x : Neuron) (wh : List Where) (ret : Ret) (out : List Neuron)
+    (h : cutSkeleton x wh ret = .ok out) :
+    ∀ f ∈ out, f = x ∨ (f.conns = filterConns f.nodes x.conns ∧ f.tags = x.tags.map (filterTags f.nodes) ∧
+      f.soma = filterSoma f.nodes x.soma) := cutSkeleton_attached h
+
+/-- The facts of the current source that the model of the front end hard-wires. -/
+theorem cut_source_facts :
+    Gen.TreeEdit.cutSingleTreeGuard = true ∧ Gen.TreeEdit.cutIdPresenceCheck = true ∧ Gen.TreeEdit.cutIdRootCheck = true ∧
+    Gen.TreeEdit.cutDedupKeepsFirst = true ∧ Gen.TreeEdit.cutInsertsDistalFirstAtIndex = true ∧
+    Gen.TreeEdit.cutIgraphProximalKeepsCutNode = true ∧ Gen.TreeEdit.cutNetworkxProximalKeepsCutNode = true := by decide
+
+/-! ### the prune methods with several nodes -/
+
+/-- `prune_distal_to` with several nodes = the successive single prunes; when they all go through, the result is
+the subset of the ORIGINAL table to the nodes that are not strictly below any listed node … -/
+theorem prune_distal_several (t t' : Table) (hw : WF t) (c : Int) (cs : List Int)
+    (h : pruneMany pruneDistal1 t (c :: cs) = some t') :
+    t' = subset t (keepDistalMany t (c :: cs)) ∧
+    ∀ i, i ∈ ids t' ↔ i ∈ ids t ∧ ∀ x ∈ c :: cs, x ∈ rootPath t i → i = x :=
+  ⟨pruneMany_distal_eq hw h, mem_ids_pruneMany_distal hw h⟩
+
+/-- … so the order of the nodes does not matter. -/
+theorem prune_distal_order_irrelevant (t a b : Table) (hw : WF t) (cs cs' : List Int) (hne : cs ≠ []) (hp : cs'.Perm cs)
+    (h1 : pruneMany pruneDistal1 t cs = some a) (h2 : pruneMany pruneDistal1 t cs' = some b) : a = b :=
+  pruneMany_distal_perm hw hne hp h1 h2
+
+/-- `prune_proximal_to` with several nodes: the subtree of the LAST node (which descends from the first). -/
+theorem prune_proximal_several (t t' : Table) (hw : WF t) (c last : Int) (cs : List Int)
+    (h : pruneMany pruneProximal1 t (c :: cs) = some t') (hl : (c :: cs).getLast? = some last) :
+    t' = subset t (fun i => (rootPath t i).contains last) ∧ c ∈ rootPath t last :=
+  pruneMany_proximal_eq hw h hl
+
+/-- **`TreeNeuron.prune_distal_to` as the source spells its loop** (which neuron is cut inside the loop, `ret=`, the
+index taken — read from the current source) returns the successive single prunes and raises exactly when one of
+them is impossible. -/
+theorem prune_distal_to_as_written (x : Neuron) (hw : WF x.nodes) (h1 : (roots x.nodes).length = 1) (cs : List Int) :
+    okNodes (pruneMethod Gen.TreeEdit.pruneDistalSpec x (cs.map Where.id)) = pruneMany pruneDistal1 x.nodes cs := by
+  have h : Gen.TreeEdit.pruneDistalSpec = refDistal := by decide
+  rw [h]
+  exact pruneLoop_distal_ids hw h1
+
+theorem prune_proximal_to_as_written (x : Neuron) (hw : WF x.nodes) (h1 : (roots x.nodes).length = 1) (cs : List Int) :
+    okNodes (pruneMethod Gen.TreeEdit.pruneProximalSpec x (cs.map Where.id)) = pruneMany pruneProximal1 x.nodes cs := by
+  have h : Gen.TreeEdit.pruneProximalSpec = refProximal := by decide
+  rw [h]
+  exact pruneLoop_proximal_ids hw h1
+
+/-! ### subset: connectors, tags, soma, the mask form, subsetting twice -/
+
+/-- The connector table after a subset is the original one filtered — same rows, same order, same multiplicities —
+to the connectors whose node was requested and exists; with `keep_disc_cn` it is untouched. -/
+theorem subset_connectors_exact (x : Neuron) (keep : Int → Bool) :
+    (subsetNeuron x keep false).conns = x.conns.filter (fun c => keep c.node && (ids x.nodes).contains c.node) ∧
+    (subsetNeuron x keep true).conns = x.conns :=
+  ⟨subsetNeuron_conns x keep, subsetNeuron_conns_keep_disc x keep⟩
+
+/-- A tag survives with exactly its ids on surviving nodes (in order) and only if at least one survives. -/
+theorem subset_tags_exact (x : Neuron) (keep : Int → Bool) (tg : Tags) (htg : x.tags = some tg) (name : String) (l : List Int) :
+    (∃ tg', (subsetNeuron x keep).tags = some tg' ∧
+      ((name, l) ∈ tg' ↔ ∃ l0, (name, l0) ∈ tg ∧ l = l0.filter (fun i => (ids (subset x.nodes keep)).contains i) ∧ l ≠ [])) := by
+  refine ⟨filterTags (subset x.nodes keep) tg, ?_, mem_filterTags⟩
+  simp [subsetNeuron, htg]
+
+/-- A pinned soma survives iff its node does. -/
+theorem subset_soma_exact (x : Neuron) (keep : Int → Bool) (i : Int) :
+    (subsetNeuron x keep).soma = some i ↔ x.soma = some i ∧ i ∈ ids (subset x.nodes keep) := filterSoma_eq_some
+
+/-- A boolean mask (positional) selects the same neuron as the ids it marks. -/
+theorem subset_mask_is_ids (t : Table) (keep : Int → Bool) : subsetMask t ((ids t).map keep) = subset t keep :=
+  subsetMask_eq_subset t keep
+
+/-- Subsetting twice is subsetting once to the intersection — for every table and every pair of requests. -/
+theorem subset_twice (t : Table) (k1 k2 : Int → Bool) : subset (subset t k1) k2 = subset t fun i => k1 i && k2 i :=
+  subset_subset t k1 k2
+
+/-- Inside a subset the root path of a kept node is the kept initial piece of its original root path. -/
+theorem subset_root_paths (t : Table) (hw : WF t) (keep : Int → Bool) (i : Int) (hi : i ∈ ids t) (hk : keep i = true) :
+    rootPath (subset t keep) i = (rootPath t i).takeWhile keep := rootPath_subset hw keep i hi hk
+
+/-- The facts of `_subset_treeneuron` in the current source that the model hard-wires: connectors are filtered by
+their `node_id` against the surviving `node_id`s (unless `keep_disc_cn`), orphans get parent `-1`, tags are filtered
+against the surviving ids and empty tags dropped, a boolean mask selects rows by position, a graph stands for its
+nodes and a DataFrame for its `node_id` column. -/
+theorem subset_source_facts :
+    Gen.TreeEdit.subsetConnFilterColumn = "node_id" ∧ Gen.TreeEdit.subsetConnFilterAgainst = "node_id" ∧
+    Gen.TreeEdit.subsetConnGuard = true ∧ Gen.TreeEdit.subsetOrphanParent = -1 ∧
+    Gen.TreeEdit.subsetOrphanTest = "x.nodes.parent_id.isin(x.nodes.node_id.values)" ∧
+    Gen.TreeEdit.subsetTagCondition = "tn in x.nodes.node_id.values" ∧ Gen.TreeEdit.subsetDropsEmptyTags = true ∧
+    Gen.TreeEdit.subsetMaskIsPositional = true ∧ Gen.TreeEdit.subsetGraphGivesItsNodes = true ∧
+    Gen.TreeEdit.subsetFrameGivesNodeIdColumn = true := by decide
+
+/-- The index literals of `connected_subgraph` that `Model/ConnSub.lean` hard-wires (`longestPath` = last of the
+longest, `firstCommon` = first, `newRootOf` = last). -/
+theorem connsub_source_facts :
+    Gen.TreeEdit.connSubLongestIndex = -1 ∧ Gen.TreeEdit.connSubFirstCommonIndex = 0 ∧ Gen.TreeEdit.connSubNewRootIndex = -1 ∧
+    Gen.TreeEdit.connSubSortKeys = ["lambda x: len(x)", "lambda x: longest_path.index(x)", "lambda x: longest_path.index(x)"] := by
+  decide
+
 /-! ### Non-vacuity -/
 
 def ex : Table := [⟨1, -1, 0, 0, 0, .root⟩, ⟨2, 1, 3, 0, 0, .branch⟩, ⟨3, 2, 6, 0, 0, .end_⟩, ⟨4, 2, 3, 4, 0, .end_⟩]
@@ -190,5 +446,50 @@ example : (cut ex 2).map (fun dp => (edges dp.1, edges dp.2)) = some ([(3, 2), (
 
 -- prevent_fragments: requesting the two tips 3 and 4 pulls in the fork 2 (and nothing else)
 example : connectedSubgraph ex [3, 4] = ([4, 2, 3], [2]) ∧ ids (subsetPF ex [3, 4]) = [2, 3, 4] := by decide
+
+-- second pass -------------------------------------------------------------------------------------------------
+/-- 11-node tree with sparse unsorted ids (the harness' fixed suite):
+`10 ← 70 ← 30 ← 40 ← 55 ← 7 ← 90`, `55 ← 66 ← 81`, `30 ← 25 ← 12`. -/
+def ex2 : Table := classify [⟨55, 40, 0, 0, 0, .slab⟩, ⟨10, -1, 0, 0, 0, .slab⟩, ⟨7, 55, 0, 0, 0, .slab⟩, ⟨70, 10, 0, 0, 0, .slab⟩,
+  ⟨90, 7, 0, 0, 0, .slab⟩, ⟨30, 70, 0, 0, 0, .slab⟩, ⟨66, 55, 0, 0, 0, .slab⟩, ⟨40, 30, 0, 0, 0, .slab⟩, ⟨81, 66, 0, 0, 0, .slab⟩,
+  ⟨25, 30, 0, 0, 0, .slab⟩, ⟨12, 25, 0, 0, 0, .slab⟩]
+def nx2 : Neuron :=
+  { nodes := ex2, conns := [⟨100, 90, 0⟩, ⟨101, 81, 1⟩, ⟨102, 55, 0⟩, ⟨103, 10, 1⟩], tags := some [("ta", [55]), ("many", [7, 81])], soma := some 10 }
+
+example : wfB ex2 = true ∧ labelsOKB ex2 = true ∧ roots ex2 = [10] := by decide
+-- two cuts in both orders: the same three fragments (as node sets: below 55, between 30 and 55, above 30)
+example : (cutMany ex2 [55, 30]).map (fun f => (roots f, (ids f).length)) = [([55], 5), ([30], 5), ([10], 3)] ∧
+    (cutMany ex2 [30, 55]).map (fun f => (roots f, (ids f).length)) = [([55], 5), ([30], 5), ([10], 3)] := by decide
+example : ids (subset ex2 (fragKeep ex2 [55, 30] 30)) = [55, 30, 40, 25, 12] := by decide
+-- prune_distal_to([55, 25]) in both orders, and what cutting `self` instead of the working copy would give
+example : (pruneMany pruneDistal1 ex2 [55, 25]).map ids = some [55, 10, 70, 30, 40, 25] ∧
+    (pruneMany pruneDistal1 ex2 [25, 55]).map ids = some [55, 10, 70, 30, 40, 25] := by decide
+example : (okNodes (pruneMethod refDistal nx2 [.id 55, .id 25])).map ids = some [55, 10, 70, 30, 40, 25] ∧
+    (okNodes (pruneMethod { refDistal with cutsWorkingCopy := false } nx2 [.id 55, .id 25])).map ids =
+      some [55, 10, 7, 70, 90, 30, 66, 40, 81, 25] := by decide
+-- a later node that was pruned away makes the call raise, as the successive single prunes do
+example : pruneMany pruneDistal1 ex2 [55, 90] = none ∧ okNodes (pruneMethod refDistal nx2 [.id 55, .id 90]) = none := by decide
+-- prune_proximal_to([30, 55]) keeps the subtree of 55
+example : (pruneMany pruneProximal1 ex2 [30, 55]).map ids = some [55, 7, 90, 66, 81] := by decide
+-- connectors / tags / soma of the pieces of a cut
+example : (match cutSkeleton nx2 [.tag "ta"] .both with
+    | .ok fs => fs.map (fun f => (f.conns.map (·.cid), f.tags, f.soma))
+    | .error _ => []) =
+    [([100, 101, 102], some [("ta", [55]), ("many", [7, 81])], none), ([102, 103], some [("ta", [55])], some 10)] := by decide
+-- the slices of the source reverse the path 81 → 66 → 55 → 40 → 30 → 70 → 10
+example : (rerootLoopAW Gen.TreeEdit.rerootSpec [] ex2 [81]).map (fun n => (n.id, n.parent)) =
+    [(55, 66), (10, 70), (7, 55), (70, 30), (90, 7), (30, 40), (66, 81), (40, 55), (81, -1), (25, 30), (12, 25)] := by decide
+-- a skip test that consulted a snapshot of the roots would not undo the first reroot
+example : roots (rerootLoopAW { refRerootSpec with rereadsRoots := false } [10] ex2 [81, 10]) = [81] ∧
+    roots (rerootMany ex2 [81, 10]) = [10] := by decide
+-- mask form
+example : subsetMask ex2 [true, true, false, true, false, true, false, false, false, false, true] = subset ex2 (fun i => [55, 10, 70, 30, 12].contains i) := by
+  decide
+
+-- the in-place graph edit on ex2 (unit weights): the edges on the path 81 → … → 10 are inverted, the others kept
+example : rerootGraphIg (graphOf ex2 fun _ _ => 1) (rootPath ex2 81) =
+    [(7, 55, 1), (90, 7, 1), (25, 30, 1), (12, 25, 1), (66, 81, 1), (55, 66, 1), (40, 55, 1), (30, 40, 1), (70, 30, 1), (10, 70, 1)] := by decide
+example : rerootOKB ex2 (reroot ex2 81) 81 = true ∧ rerootOKB ex2 ex2 81 = false := by decide
+example : fragsOKB ex2 10 [55, 30] (cutMany ex2 [30, 55]) = true ∧ fragsOKB ex2 10 [55, 30] [ex2] = false := by decide
 
 end Navis.Props.C10
